@@ -632,8 +632,11 @@ class Interp:
             return out
         if isinstance(e, ast.BinOp) and isinstance(e.op, (ast.Div, ast.FloorDiv, ast.Mod)):
             l, r = self.ev(e.left, env, depth), self.ev(e.right, env, depth)
-            if isinstance(e.op, ast.Mod) and hasattr(l, "model_mod") and isinstance(r, int) and not isinstance(r, bool) and r > 0:
-                return l.model_mod(r)       # a scripted draw: its residue is chosen by the model's script
+            if isinstance(e.op, ast.Mod) and hasattr(l, "model_mod") and isinstance(r, int) and not isinstance(r, bool):
+                if r == 0:
+                    self.throw("ZeroDivisionError", e)
+                if r > 0:
+                    return l.model_mod(r)       # a scripted draw: its residue is chosen by the model's script
             if _is_num(l) and _is_num(r):
                 if r == 0:
                     self.throw("ZeroDivisionError", e)
@@ -869,6 +872,12 @@ class Interp:
                 return self.truthy(args[0])
             if nm in ("max", "min", "sorted") and len(args) == 1 and isinstance(args[0], list) and kwargs.get("key") is not None:
                 keys = [self.apply(kwargs["key"], [x], env, depth) for x in args[0]]
+                if args[0] and all(isinstance(k, str) for k in keys):
+                    keys = [(k,) for k in keys]            # text keys (key=str / repr / a name): ordered as text
+                    order = sorted(range(len(keys)), key=lambda i: keys[i], reverse=kwargs.get("reverse") is True)
+                    if nm == "sorted":
+                        return [args[0][i] for i in order]
+                    return args[0][order[-1] if nm == "max" else order[0]]
                 if args[0] and all(_is_num(k) for k in keys):
                     pairs = list(zip(keys, range(len(keys))))
                     if nm == "sorted":
@@ -1026,6 +1035,7 @@ class Interp:
                         cenv[k] = v
                     self.fn_stack.append(target)
                     saved_cls = self.cls
+                    self.cls = cands[0]        # self.m() / super().m() inside the method resolve through the object's class
                     try:
                         return self.call_body(target, cenv, depth + 1)
                     finally:
@@ -1158,6 +1168,8 @@ def _install():
             if fv.kind == "__contains__":
                 node = ast.Compare(left=ast.Name(id="__i", ctx=ast.Load()), ops=[ast.In()], comparators=[ast.Name(id="__b", ctx=ast.Load())])
                 return self.ev(ast.fix_missing_locations(node), {"__b": fv.target, "__i": args[0]}, depth)
+        if isinstance(fv, TypeV) and fv.kind == "builtin" and fv.name == "str" and len(args) == 1 and isinstance(args[0], (TypeV, Sym, str, int)):
+            return args[0].name if isinstance(args[0], TypeV) else args[0].tag if isinstance(args[0], Sym) else str(args[0])
         if isinstance(fv, Sym) and fv.tag in ("operator.getitem", "operator.contains") and len(args) == 2:
             return self.apply(BoundOp("__getitem__" if fv.tag.endswith("getitem") else "__contains__", args[0]), [args[1]], env, depth)
         if isinstance(fv, Sym) and self.sym_result is not None:
